@@ -49,3 +49,32 @@ def run(o, tier, scratch):
     else:
         ent["status"] = "ok"
     return ent
+
+
+def unsafe_inventory(o, tier, scratch):
+    """C08: every `unsafe` token of the real sources is in the inventory (contracts/unsafe_sites.json)."""
+    import json
+    from verif import VERIF
+    inv = json.load(open(os.path.join(VERIF, "inventory", "unsafe_sites.json")))
+    src = os.path.join(scratch, "src")
+    found = {}
+    for fn in sorted(os.listdir(src)):
+        if not fn.endswith(".rs") or fn.startswith("verif_"):
+            continue
+        text = open(os.path.join(src, fn)).read()
+        cut = text.find("\n#[cfg(kani)]\n#[allow(unused_imports")
+        if cut >= 0:
+            text = text[:cut]
+        n = len(re.findall(r"\bunsafe\b", strip(text)))
+        if n:
+            found["src/" + fn] = n
+    diffs = []
+    inv = {k: v for k, v in inv.items() if isinstance(v, dict)}
+    for k in sorted(set(found) | set(inv)):
+        a, b = found.get(k, 0), (inv.get(k) or {}).get("count", 0)
+        if a != b:
+            diffs.append("%s: %d unsafe tokens, inventory has %d" % (k, a, b))
+    if diffs:
+        raise Undecided("new-unsafe-site (inventory mismatch: a new or removed unsafe site has no covering obligation assigned): " + "; ".join(diffs))
+    return {"status": "ok", "cmd": "python3 lib/staticscan.py unsafe_inventory", "duration_s": 0.0, "n_checks": sum(found.values()),
+            "counts": {"unsafe_tokens": sum(found.values()), "files": len(found)}}
